@@ -154,10 +154,13 @@ func concScenarios() []*mc.Scenario {
 		// Growing write against creation + growing write.
 		concScenario(quota("conc-quota-2files-4bytes-write", 2, 4, []int{1, -1}, false),
 			[][]cop{{W(1, 2), T(1)}, {N(2), W(2, 1)}}, -1, -1),
+		// Three calls each.
+		concScenario(quota("conc-quota-2files-4bytes-long", 2, 4, nil, false),
+			[][]cop{{N(2), W(1, 3), C}, {N(2), T(4), T(1)}}, -1, -1),
 		// Three threads, two file slots: a creation that fails on bytes
 		// transiently occupies a file slot.
 		concScenario(quota("conc-quota-2files-4bytes-3threads", 2, 4, nil, false),
-			[][]cop{{N(1), C}, {N(4)}, {N(0)}}, 3, -1),
+			[][]cop{{N(1), C}, {N(4)}, {N(0)}}, 3, 5),
 		// Base pool failures: roll-back races with allocation.
 		concScenario(quota("conc-quota-2files-4bytes-basefaults", 2, 4, []int{-1, 1}, true),
 			[][]cop{{N(2), C}, {T(3), C}}, -1, -1),
